@@ -92,11 +92,13 @@ type SpecFn struct {
 }
 
 type SpecAxiom struct {
-	Name string
-	Text string
-	E    Expr
-	File string
-	Line int
+	Name    string
+	Text    string
+	E       Expr
+	File    string
+	Line    int
+	Theorem bool     // a proved consequence of definitions: used as an axiom elsewhere, and checked as a lemma (with `reveal`)
+	Reveal  []string
 }
 
 type SpecLemma struct {
@@ -221,7 +223,7 @@ func readContractLines(path string, requirePrefix bool) ([]rawLine, string, erro
 var clauseKeywords = map[string]bool{"requires": true, "ensures": true, "invariant": true, "modifies": true, "pure": true,
 	"trusted": true, "may_panic": true, "loop": true, "func": true, "extern": true, "functype": true, "lemma": true,
 	"sort": true, "fn": true, "axiom": true, "ghost": true, "pkgframe": true, "guarded": true, "lockinv": true,
-	"acquires": true, "releases": true, "opaque": true, "reveal": true, "uses": true, "allocates": true, "noaxioms": true, "ghostset": true, "before_call": true, "macro": true, "define": true, "crashinv": true, "note": true, "recfn": true, "props": true}
+	"acquires": true, "releases": true, "opaque": true, "reveal": true, "uses": true, "allocates": true, "noaxioms": true, "ghostset": true, "before_call": true, "macro": true, "define": true, "theorem": true, "crashinv": true, "note": true, "recfn": true, "props": true}
 
 func firstWord(s string) (string, string) {
 	s = strings.TrimSpace(s)
@@ -256,6 +258,7 @@ func parseDirectives(lines []rawLine, pkgPath string, spec *SpecSet, contracts m
 	var cur *FuncContract
 	var curLoop *LoopContract
 	var curLemma *SpecLemma
+	var curAxiom *SpecAxiom
 	mkClause := func(kind string, d dir) (*Clause, error) {
 		rest := d.rest
 		label := ""
@@ -285,6 +288,7 @@ func parseDirectives(lines []rawLine, pkgPath string, spec *SpecSet, contracts m
 				Loops: map[int]*LoopContract{}, File: d.file, Line: d.line}
 			curLoop = nil
 			curLemma = nil
+			curAxiom = nil
 			switch d.kw {
 			case "extern":
 				cur.Extern = true
@@ -445,7 +449,9 @@ func parseDirectives(lines []rawLine, pkgPath string, spec *SpecSet, contracts m
 				cur.Uses = append(cur.Uses, splitNames(d.rest)...)
 			}
 		case "reveal":
-			if curLemma != nil {
+			if curAxiom != nil && cur == nil && curLemma == nil {
+				curAxiom.Reveal = append(curAxiom.Reveal, splitNames(d.rest)...)
+			} else if curLemma != nil {
 				curLemma.Reveal = append(curLemma.Reveal, splitNames(d.rest)...)
 			} else if cur != nil {
 				cur.Reveal = append(cur.Reveal, splitNames(d.rest)...)
@@ -459,7 +465,7 @@ func parseDirectives(lines []rawLine, pkgPath string, spec *SpecSet, contracts m
 			f.Opaque = d.kw == "opaque"
 			f.File, f.Line = d.file, d.line
 			spec.Fns = append(spec.Fns, f)
-		case "axiom":
+		case "axiom", "theorem":
 			i := strings.Index(d.rest, ":")
 			if i < 0 {
 				return fmt.Errorf("%s:%d: axiom needs 'name: expr'", d.file, d.line)
@@ -468,7 +474,11 @@ func parseDirectives(lines []rawLine, pkgPath string, spec *SpecSet, contracts m
 			if err != nil {
 				return fmt.Errorf("%s:%d: %v", d.file, d.line, err)
 			}
-			spec.Axioms = append(spec.Axioms, &SpecAxiom{Name: strings.TrimSpace(d.rest[:i]), Text: d.rest[i+1:], E: e, File: d.file, Line: d.line})
+			ax := &SpecAxiom{Name: strings.TrimSpace(d.rest[:i]), Text: d.rest[i+1:], E: e, File: d.file, Line: d.line, Theorem: d.kw == "theorem"}
+			spec.Axioms = append(spec.Axioms, ax)
+			curAxiom = ax
+			cur = nil
+			curLemma = nil
 		case "lemma":
 			// lemma name(params): expr
 			i := strings.Index(d.rest, "(")
@@ -488,6 +498,7 @@ func parseDirectives(lines []rawLine, pkgPath string, spec *SpecSet, contracts m
 			lm.E = e
 			spec.Lemmas = append(spec.Lemmas, lm)
 			curLemma = lm
+			curAxiom = nil
 			cur = nil
 		case "props":
 			if curLemma != nil {
